@@ -1234,7 +1234,9 @@ def gen(rng, tier, n=None, focus=None):
         return [gen_extremes(rng, i, tier, w) for i, w in enumerate(plan[:n])]
     if focus == "size":
         n = n or (10 if tier == "quick" else 24)
-        top = 13 if tier == "quick" else 17
+        # (2^17-update streams made one model shard run > 25 min - the oracle's exact frequency map is an association list,
+        #  quadratic in the number of distinct items - and hit the 1500 s shard limit: thorough stops at 2^15)
+        top = 13 if tier == "quick" else 15
         # (big maps: every purge costs ~0.4 s in the list-based table model, so their streams stop at 2^13 / 2^14)
         plan = [(8, top), (16, top), (64, top), (2048, 12 if tier == "quick" else 13), (1024, 12 if tier == "quick" else 13),
                 (1, 10), (2, 10), (4, 11)]      # below the minimal map size: an 8-slot map, lg_max_map_size 3, capacity 6
